@@ -20,7 +20,8 @@ SPEC = {
     "must_reach": ["PyMatterSim.static.boo:boo_2d.lthorder", "PyMatterSim.static.boo:boo_2d.time_average",
                    "PyMatterSim.static.boo:boo_2d.spatial_corr", "PyMatterSim.static.boo:boo_2d.time_corr"],
     "floors": {"psi": 2000, "modulus_bound": 2000, "lattice_modulus_one": 60, "rotation_covariance": 300, "time_average": 100,
-               "time_average_index": 30, "spatial_corr": 30, "time_corr": 100, "signed_weight_cases": 15},
+               "time_average_index": 30, "spatial_corr": 30, "time_corr": 100, "signed_weight_cases": 15,
+               "particle_without_neighbours_in_one_frame": 5, "time_average_with_an_undefined_frame": 2},
     "rule": ("2D configurations x neighbour definitions {repository N-nearest, cut-off, freud Voronoi with edge-length weights, own "
              "ragged files with own signed weights} x l 1..12 x {orthogonal, triclinic} x masks x 1..6 frames x averaging windows; "
              "perfect hexagonal / square / honeycomb lattices; rotated open clusters; non-trivial = every particle has >= 1 neighbour; "
@@ -36,6 +37,9 @@ def ref_psi(pos, H, ppp, lists, weights, l):
     mb = 0.0
     for i in range(N):
         js = lists[i]
+        if len(js) == 0:
+            out[i] = np.nan            # undefined: the caller masks this entry
+            continue
         v, dist, _ = geom.min_image_vectors(pos[js] - pos[i], H, ppp)
         mb = max(mb, float(dist.max()))
         th = np.arctan2(v[:, 1], v[:, 0])
@@ -117,6 +121,7 @@ def case_random(ctx, rng, wd):
     fn = os.path.join(wd, "nl.dat")
     fw = ""
     signed = False
+    isolated = None
     if nlkind == "nnearest":
         cn.Nnearests(snaps, int(rng.integers(2, 8)), ppp, fn)
     elif nlkind == "cutoff":
@@ -144,6 +149,13 @@ def case_random(ctx, rng, wd):
                 ww.append(w)
             lists_own.append(ll)
             w_own.append(ww)
+        if T >= 3 and N >= 3 and not uneven and rng.random() < 0.3:
+            # a particle that has NO neighbour in one frame (a dilute region, a cut-off list): its order parameter is undefined there (0/0) and
+            # only there -- every other particle, every other frame and every time window that does not contain that frame stay defined
+            isolated = (int(rng.integers(0, T)), int(rng.integers(0, N)))
+            lists_own[isolated[0]][isolated[1]] = []
+            w_own[isolated[0]][isolated[1]] = np.zeros(0)
+            ctx.count("particle_without_neighbours_in_one_frame")
         write_nl(fn, lists_own)
         if rng.random() < 0.7:
             fw = os.path.join(wd, "w.dat")
@@ -160,7 +172,7 @@ def case_random(ctx, rng, wd):
     if fw:
         _h, fwr = parse_file(fw)
         weights = [[[float(v) for v in row[2:2 + int(row[1])]] for row in sorted(rows, key=lambda r: int(r[0]))] for rows in fwr]
-    if any(len(x) == 0 for ll in lists for x in ll):
+    if any(len(x) == 0 for t_, ll in enumerate(lists) for i_, x in enumerate(ll) if (t_, i_) != isolated):
         return
     Nmax = max(10, max(len(x) for ll in lists for x in ll) + 1)
     info = lambda: {"l": l, "nl": nlkind, "N": N, "T": T, "cell": cellkind, "H": Hs, "ppp": ppp, "weights": bool(fw), "signed": signed, "timesteps": ts,  # noqa: E731
@@ -189,12 +201,19 @@ def case_random(ctx, rng, wd):
             ctx.skip("psi")
             return
     got = np.asarray(b.ParticlePhi)
+    if isolated is not None:
+        if got.shape != psi.shape:
+            ctx.violation("boo_2d/psi/shape", f"shape {got.shape} != {psi.shape}", info())
+            return
+        got = got.copy()
+        got[isolated] = 0.0             # the undefined entry is not compared (whatever it holds); everything else is
+        psi[isolated] = 0.0
     if not ctx.close("psi", got, psi, "boo_2d/psi" + ("/weighted" if fw else ""), rtol=0, atol=1e-10, what="psi_l", data=info):
         return
     ctx.check("modulus_bound", bool(np.all(np.abs(got) <= 1 + 1e-12)), "boo_2d/modulus", lambda: f"|psi| = {np.abs(got).max()} > 1", info)
     ctx.count("modulus_bound", got.size - 1)
     if phi_file:
-        ctx.check("psi", np.array_equal(np.load(phi_file), got), "boo_2d/file", "saved order parameter differs", info)
+        ctx.check("psi", np.array_equal(np.load(phi_file), np.asarray(b.ParticlePhi), equal_nan=True), "boo_2d/file", "saved order parameter differs", info)
     # time average
     if T >= 3 and not uneven:
         dt_s = str(rng.choice(["0.002", "0.005", "1.0"]))
@@ -217,12 +236,23 @@ def case_random(ctx, rng, wd):
                         exp = np.array([psi[n:n + wexp].mean(axis=0) for n in range(rows)])
                     else:
                         exp = np.array([np.abs(psi[n:n + wexp]).mean(axis=0) * np.exp(1j * np.angle(got[n:n + wexp]).mean(axis=0)) for n in range(rows)])
+                    vals_returned = vals
+                    if isolated is not None and vals.shape == exp.shape:
+                        vals, exp = vals.copy(), exp.copy()
+                        for n_ in range(rows):
+                            if n_ <= isolated[0] < n_ + wexp:
+                                vals[n_, isolated[1]] = exp[n_, isolated[1]] = 0.0
+                        ctx.count("time_average_with_an_undefined_frame")
                     ctx.close("time_average", vals, exp, "boo_2d.time_average/" + ("complex" if cplx else "modulus_phase"), rtol=0, atol=1e-9, what="time-averaged order parameter", data=info)
                     n = np.arange(rows)
                     good = np.array_equal(mids, n + (wexp - 1) // 2) if wexp % 2 else bool(np.all((mids == n + wexp // 2 - 1) | (mids == n + wexp // 2)))
                     ctx.check("time_average_index", good, "boo_2d.time_average/index", lambda: f"window {wexp}: indices {mids.tolist()}", info)
                     if outf:
-                        ctx.check("time_average", np.array_equal(np.load(outf), vals), "boo_2d.time_average/file", "saved average differs", info)
+                        ctx.check("time_average", np.array_equal(np.load(outf), vals_returned, equal_nan=True), "boo_2d.time_average/file", "saved average differs", info)
+    if isolated is not None:
+        for f in os.listdir(wd):
+            os.remove(os.path.join(wd, f))
+        return          # the correlations sum over all particles: undefined as a whole
     # spatial correlation
     if rng.random() < 0.5:
         Lmin = float(np.diag(H).min())
